@@ -103,12 +103,23 @@ func (p *VarHeaderPostprocessor) substr(args []string) (func(in string) string, 
 		}
 	}
 	return func(in string) string {
+		// The modifier is shared by all shots: work on copies of the configured bounds and keep them inside the value.
 		l := len(in)
+		start, end := start, end
 		if start < 0 {
 			start = l + start
 		}
 		if end <= 0 {
 			end = l + end
+		}
+		if start < 0 {
+			start = 0
+		}
+		if end < 0 {
+			end = 0
+		}
+		if start > l {
+			start = l
 		}
 		if end > l {
 			end = l
